@@ -652,7 +652,7 @@ func (l *segment) current() ([]byte, error) {
 	}
 	l.currentSize = int64(sz)
 
-	if int64(sz) > l.maxSize {
+	if int64(sz) > l.maxSize || sz > uint64(l.size) {
 		return nil, fmt.Errorf("record size out of range: max %d: got %d", l.maxSize, sz)
 	}
 
